@@ -972,6 +972,24 @@ int vorbis_synthesis_lapout(vorbis_dsp_state *v,float ***pcm){
 
   if(v->pcm_returned<0)return 0;
 
+  /* nothing ahead of the last block's center is left to return (in
+     particular: only one block has been decoded since init/restart).
+     The lapping data is then exactly the second half of that block,
+     already contiguous at its center; the unfragmenting below assumes
+     returned data from a preceding block and would run pcm_returned
+     past the end of the buffer. */
+  {
+    int thisCenter=(v->centerW?0:n1);
+    if(v->pcm_returned==thisCenter){
+      if(pcm){
+        for(i=0;i<vi->channels;i++)
+          v->pcmret[i]=v->pcm[i]+thisCenter;
+        *pcm=v->pcmret;
+      }
+      return(n);
+    }
+  }
+
   /* our returned data ends at pcm_returned; because the synthesis pcm
      buffer is a two-fragment ring, that means our data block may be
      fragmented by buffering, wrapping or a short block not filling
